@@ -43,19 +43,25 @@ SMALL_INT_REWARDS = (0, 0, 1, 1, 2, 3)
 
 @st.composite
 def game_cases(draw, max_inner=9):
-    fam = draw(st.sampled_from(("acyclic", "acyclic", "iso", "stopping", "stopping", "twin", "twin")))
+    fam = draw(st.sampled_from(("acyclic", "acyclic", "iso", "stopping", "stopping", "twin", "twin", "large_close")))
     if fam == "twin":
         tw = draw(games.twin_games(min_inner=2, max_inner=max_inner - 1, dyadic=True,
                                    acyclic=draw(st.booleans()), rewards=SMALL_INT_REWARDS + (5, 0.5)))
         return dict(kind="game", game=tw["game"], alias=tw["alias"], prune=games.coin(draw))
     if fam == "acyclic":
         g = draw(games.stopping_games(min_inner=2, max_inner=max_inner, dyadic=True, acyclic=True,
-                                      rewards=SMALL_INT_REWARDS))
+                                      rewards=SMALL_INT_REWARDS, inner_finals=True))
+    elif fam == "large_close":
+        # rewards in the millions that differ by 1-3: expected rewards of competing successors are far apart
+        # in absolute terms and within a millionth of each other in relative terms (the iteration is exact here)
+        base = draw(st.sampled_from((3_000_000, 1_000_000, 2 ** 22)))
+        g = draw(games.stopping_games(min_inner=2, max_inner=min(max_inner, 8), dyadic=True, acyclic=True,
+                                      rewards=(base, base, base + 1, base + 2, base + 3, 0)))
     elif fam == "iso":
         g = draw(isomorphic_tie())
     else:
-        g = draw(games.stopping_games(min_inner=2, max_inner=max_inner))
-    return dict(kind="game", game=g, prune=games.coin(draw))
+        g = draw(games.stopping_games(min_inner=2, max_inner=max_inner, inner_finals=True))
+    return dict(kind="game", game=g, prune=games.coin(draw), fam=fam)
 
 
 @st.composite
@@ -146,6 +152,10 @@ def check_case(case):
         return v
 
     game = case["game"]
+    if case.get("fam") == "large_close":
+        v.cls("rewards_in_the_millions_differing_by_units")
+    if any(any(t != f for _, t in game["transition_list"][f]) for f in set(game["final_states"])):
+        v.cls("non_absorbing_final_state")
     if case.get("alias"):
         game = games.apply_alias(game, case["alias"])
         v.cls("shared_list_object")
